@@ -142,9 +142,15 @@ def run_case(case):
             return R.concat(R.from_iterable(items[:fail_at]), R.throw(RuntimeError('boom')))
         return R.from_iterable(items)
 
+    gate = {}
+
     def factory_source(n, tag):
         async def gen():
             for i in range(n):
+                if case.get('gate_after') is not None and i >= case['gate_after']:
+                    # the source has nothing more to give until the harness says so (after the CANCEL has been handled)
+                    gate.setdefault('ev', asyncio.Event())
+                    await gate['ev'].wait()
                 yield Payload(b'%s%d' % (tag, i))
 
         def factory(backpressure):
@@ -191,6 +197,10 @@ def run_case(case):
             net.dispatched['client'].on_append = lambda d: timeline.append(('recv', d))
             net.tc.wire = NET.LogList(net.tc.wire)
             net.tc.wire.on_append = lambda b: timeline.append(('sent', sim.parse_sent(b)))
+            stimeline = []       # the same at the server
+            net.dispatched['server'].on_append = lambda d: stimeline.append(('recv', d))
+            net.ts.wire = NET.LogList(net.ts.wire)
+            net.ts.wire.on_append = lambda b: stimeline.append(('sent', sim.parse_sent(b)))
             obs = Obs()
             kind = case['kind']
             box = {}
@@ -212,6 +222,13 @@ def run_case(case):
                 core_pub = NET.RecPub(None, None)
                 csub = NET.RecSub(None, None)
                 net.act(lambda: net.ep['client'].request_channel(Payload(b'req'), core_pub).subscribe(csub))
+                o = None
+            elif kind == 'stream-core':
+                # a core-API requester of a stream whose subscriber grants credit in several request(n) calls in a row
+                csub = NET.RecSub(None, None)
+                g = case['grants']
+                net.act(lambda: net.ep['client'].request_stream(Payload(b'req')).initial_request_n(g[0]).subscribe(csub))
+                net.act(lambda: [csub.subscription.request(x) for x in g[1:]])
                 o = None
             elif kind == 'stream':
                 o = client.request_stream(Payload(b'req'), request_limit=case['limit'])
@@ -262,8 +279,15 @@ def run_case(case):
             for _ in range(10):
                 net.loop.tick()
             net.flush(rng)
+            if gate.get('ev') is not None:
+                net.act(lambda: gate['ev'].set())
+                for _ in range(10):
+                    net.loop.tick()
+                net.flush(rng)
             credit_check()
-            res.update(timeline=list(timeline), events=list(obs.events), handler_events=list(h_obs.events), calls=list(calls), asked=list(asked),
+            if kind == 'stream-core':
+                res['core_events'] = list(csub.events)
+            res.update(timeline=list(timeline), server_timeline=list(stimeline), events=list(obs.events), handler_events=list(h_obs.events), calls=list(calls), asked=list(asked),
                        over=over[:1], disposed=disposed, taps=[dict(t) for t in tap.logs],
                        client_wire=[sim.parse_sent(b) for b in net.tc.wire], server_wire=[sim.parse_sent(b) for b in net.ts.wire],
                        escaped=list(net.loop.exceptions)[:2],
@@ -305,6 +329,24 @@ def oracle(res):
         elif what == 'sent' and sid in ended:
             bad('requester-sent-a-frame-after-it-had-received-the-terminal-frame', frame=repr(f)[:200])
             break
+    # the responder side: once CANCEL has been received on a stream, no further element is written on it
+    cancelled = set()
+    for what, f in res.get('server_timeline', []):
+        sid = f.get('sid')
+        if what == 'recv' and f['t'] == 'Cancel':
+            cancelled.add(sid)
+        elif what == 'sent' and sid in cancelled and f['t'] == 'Payload':
+            bad('responder-wrote-an-element-after-it-had-received-cancel', frame=repr(f)[:200])
+            break
+    if kind == 'stream-core':
+        total = sum(case['grants'])
+        want = [('next', b'', b'v%d' % i, False) for i in range(min(total, case['n']))]
+        got = [e for e in res.get('core_events', []) if e[0] == 'next']
+        got_cmp = [(e[0], e[1], e[2], False) for e in got]
+        if got_cmp != want:
+            bad('credit granted in several request(n) calls: %d granted, source has %d, %d elements delivered' %
+                (total, case['n'], len(got)), got=repr(got[:8])[:300])
+        return out
     if case.get('take') is not None and kind == 'stream':
         k = min(case['take'], case['n'])
         want = expected_events(case['n'], None)
@@ -411,7 +453,8 @@ def coq_cases(res):
         seen = []
         for e in seen_src:
             seen.append('ONext %s' % cN(vid(e[1])) if e[0] == 'next' else 'OCompleted' if e[0] == 'completed' else 'OError')
-        if res['case'].get('dispose_after') is not None or res['case'].get('take') is not None:
+        if res['case'].get('dispose_after') is not None or res['case'].get('take') is not None or \
+                res['case']['kind'] == 'stream-core':
             continue       # after dispose the observable no longer forwards to the observer (Rx semantics, not the adapter's)
         reqs = [cN(n) for n in t['reqs']]
         if not t['requester'] and reqs:
@@ -462,6 +505,12 @@ def gen_cases(ctx, n):
             hl = rng.choice([1, 2, 3])
             cases.append(dict(ver=c['ver'], kind='channel-core', n=0, limit=1, fail_at=None, dispose_after=None,
                               up_n=hl * rng.randint(1, 3) + rng.choice([0, 0, 1]), h_limit=hl))
+    for ver in ('rx4', 'rx3'):
+        for grants in ([1, 2, 3], [2, 2], [1, 1, 1, 1], [3, MAXN], [1, 5]):
+            cases.append(dict(ver=ver, kind='stream-core', n=10, limit=1, fail_at=None, dispose_after=None, grants=grants))
+        for da in (1, 2, 4):
+            cases.append(dict(ver=ver, kind='stream', n=20, limit=rng.choice([50, 100, MAXN]), fail_at=None, dispose_after=da,
+                              factory=(ver == 'rx4'), gate_after=da + 1))
     for ver in ('rx4', 'rx3'):
         for cnt, k in ((3, 3), (3, 2), (4, 5), (1, 1)):
             cases.append(dict(ver=ver, kind='stream', n=cnt, limit=rng.choice([1, 2, MAXN]), fail_at=None, dispose_after=None, take=k))
